@@ -7,7 +7,8 @@
    request  {"cmd":"accept","protocol":"StateHeld"|"Legacy","reset_lcp":bool,"pc":[..],"sp":[..],"op":[..],"ret":[..],"fuel":n,"items":[item..]}
    item     ["req", kind, arg] | ["resp", kind, payload] | ["event", name]
             kind: configurationDone continue pause stepIn next stepOut setBreakpoints stackTrace registers evaluate
-            arg (setBreakpoints): [[lo,hi],..];  payload: stackTrace -> pc | null (no frame); registers -> index | null (unchecked)
+            arg (setBreakpoints): [[lo,hi],..];  payload: stackTrace -> pc | null (no frame); registers -> index | null (unchecked);
+            run-control kinds -> "error" when an error response was observed
             name: stopped_breakpoint stopped_step continued output terminated
    reply    {"accepted":true,"actions":n} | {"accepted":false,"at":item index,"why":text} *)
 
@@ -102,10 +103,15 @@ let accept (req : json) : json =
                 let s = quiet k s (S_req RConfigDone) in
                 let (s, o) = act k s S_start in
                 if o <> [ OResp RConfigDone ] then raise (Reject (k, "response mismatch")); finish s
-              | "continue" ->
+              | "continue" when payload <> Str "error" ->
                 let s = quiet k s (S_req RContinue) in
                 let (s, o) = act k s S_resume in
                 if o <> [ OResp RContinue ] then raise (Reject (k, "response mismatch")); finish s
+              | ("pause" | "stepIn" | "next" | "stepOut" | "continue") when payload = Str "error" ->
+                (* refused: the machine is still launching *)
+                let r = kind_of kind in
+                let (s, o) = act k s (S_req r) in
+                if o <> [ OError r ] then raise (Reject (k, "error response observed, the model serves the request")); finish s
               | "pause" | "stepIn" | "next" | "stepOut" ->
                 let r = kind_of kind in
                 let serve s =
